@@ -8,7 +8,9 @@ ENCODINGS = [
     "windows-1253", "windows-1254", "windows-1255", "windows-1256", "windows-1257", "windows-1258",
     "x-mac-cyrillic", "x-user-defined",
 ]
-MODELLED = ["UTF-8", "windows-1252", "ISO-8859-7"]
+MULTIBYTE = ["Big5", "EUC-JP", "EUC-KR", "gb18030", "GBK", "Shift_JIS"]
+MODELLED = [e for e in ENCODINGS if e not in MULTIBYTE]
+CORE = ["UTF-8", "windows-1252", "ISO-8859-7"]
 PYCODEC = {
     "Big5": "big5", "EUC-JP": "euc_jp", "EUC-KR": "euc_kr", "gb18030": "gb18030", "GBK": "gbk",
     "Shift_JIS": "shift_jis", "UTF-8": "utf-8",
@@ -97,7 +99,7 @@ def rand_cuts(rng, n):
 
 
 def gen_dec(rng):
-    enc = rng.choice(MODELLED) if rng.random() < 0.55 else rng.choice(ENCODINGS)
+    enc = rng.choice(CORE) if rng.random() < 0.3 else rng.choice(ENCODINGS)
     r = rng.random()
     if r < 0.55:
         size = rng.randrange(0, 40)
@@ -129,7 +131,7 @@ def rand_str(rng, nchars):
 
 
 def gen_tenc(rng, big=False):
-    enc = rng.choice(MODELLED[1:] + ["UTF-8"]) if rng.random() < 0.55 else rng.choice(ENCODINGS)
+    enc = rng.choice(CORE) if rng.random() < 0.25 else rng.choice(ENCODINGS)
     if big:
         # >= 1 MiB of content: TextEncoder switches to the heap buffer (text_encoder.rs:33)
         unit = rng.choice(["\u00e9", "\u00e9a", "\u20ac\u0416"])
@@ -183,7 +185,9 @@ def gen_resync(rng):
 
 
 META_LABELS = ["utf-8", "UTF-8", "utf8", "windows-1252", "latin1", "iso-8859-1", "ascii", "iso-8859-7", "greek",
-               "bogus", "utf-16le", "utf-16be", "utf-16", "iso-2022-jp", "replacement", "x"]
+               "bogus", "utf-16le", "utf-16be", "utf-16", "iso-2022-jp", "replacement", "x",
+               "koi8-r", "windows-1251", "cp866", "x-user-defined", "iso-8859-2", "Latin2", "macintosh", "tis-620",
+               "csiso2022kr", "hz-gb-2312", "iso-8859-8-i", "logical", "windows-1258"]
 
 
 def meta_doc(script):
@@ -201,7 +205,7 @@ def meta_doc(script):
 
 
 def gen_meta(rng):
-    enc = rng.choice(MODELLED)
+    enc = rng.choice(CORE) if rng.random() < 0.5 else rng.choice(MODELLED)
     adjust = 1 if rng.random() < 0.85 else 0
     script = []
     for _ in range(rng.randrange(1, 9)):
@@ -222,7 +226,10 @@ def gen_meta(rng):
 
 COMPAT_LABELS = ["utf-8", "windows-1252", "iso-8859-7", "gbk", "shift_jis", "big5", "euc-jp", "euc-kr", "gb18030",
                  "koi8-r", "x-user-defined", "macintosh", "utf-16le", "utf-16be", "utf-16", "iso-2022-jp",
-                 "csiso2022jp", "unicode", "ucs-2", "replacement", "bogus", "iso-2022-kr", "hz-gb-2312"]
+                 "csiso2022jp", "unicode", "ucs-2", "replacement", "bogus", "iso-2022-kr", "hz-gb-2312",
+                 "cp866", "latin1", "l2", "tis-620", "x-sjis", "ms_kanji", "x-gbk", "chinese", "big5-hkscs",
+                 "korean", "x-euc-jp", "utf-7", "UTF-8", "Windows-1251", "csunicode", "unicodefffe",
+                 "unicodefeff", "iso-8859-8-i", "visual", "logical", "x-mac-roman", "x-mac-ukrainian", "dos-874"]
 
 
 def gen_loc(rng):
